@@ -1,10 +1,12 @@
 //verif:pkg .
 //verif:use servers_mcp
 //verif:bound framing: one message of 1..5 (thorough: 1..9) symbolic bytes (every byte >= 0x20, or LF) through sseutil.Writer.WriteEvent, formatSSEEvent and the stdio line writer, read back by a reference reader; interleaving: two writers on one stream whose Write is adversarial (one Write - every choice of which - blocks after its bytes were recorded until another writer has written and gone quiet, or 100 ms passed): two stdio responses, two notifications on one GET stream, a server-issued request and a notification on one GET stream, a response and a notification on one legacy SSE session, the keep-alive comment of a legacy session while a frame's Write is in progress (partly written)
+//verif:bound long messages: one concrete JSON message of 4095, 4096, 4097, 65535, 65536, 65537, 70000 or 200000 bytes through sseutil.Writer.WriteEvent, formatSSEEvent and the stdio line writer, read back as one frame
 //verif:assume JSON text contains no byte < 0x20 (json.Marshal escapes control characters, U+2028 and U+2029); pipe-buffer / bufio size boundaries and json.Encoder internals are outside the claim
 package mcp
 
 import (
+	"encoding/json"
 	"context"
 	"net/http"
 	"strings"
@@ -375,5 +377,49 @@ func H_C09_legacy_keepalive_vs_frame() {
 	a, b, all := c09Markers(evs)
 	vAssert("the-event-is-one-message", all)
 	vAssert("frame-recovered", vOr(a, b))
+	vReach("end")
+}
+
+// ---- long messages (bufio / scanner / pipe-buffer size boundaries) ----
+
+// c09Long: a JSON message whose text is exactly n bytes (n >= 40).
+func c09Long(n int) []byte {
+	head := `{"jsonrpc":"2.0","method":"n/big","p":"`
+	tail := `"}`
+	return []byte(head + strings.Repeat("a", n-len(head)-len(tail)) + tail)
+}
+
+// H_C09_long_messages: one message of a size around the 4 KiB / 64 KiB buffer boundaries through every frame
+// writer: read back as exactly one frame carrying the whole message.
+func H_C09_long_messages() {
+	sizes := []int{4095, 4096, 4097, 65535, 65536, 65537, 70000, 200000}
+	n := sizes[vChoice("size", len(sizes))]
+	msg := c09Long(n)
+	switch vChoice("writer", 3) {
+	case 0:
+		rec := newVerifRecorder()
+		err := sseutil.NewWriter().WriteEvent(rec, sseutil.Event{ID: "evt-1-1", Data: msg})
+		vAssert("write-ok", err == nil)
+		evs, ok := c09ReadSSE(string(rec.body))
+		vAssert("stream-parses", ok)
+		vAssert("one-event-with-the-whole-message", vAnd(len(evs) == 1, len(evs) == 1 && evs[0] == string(msg)))
+	case 1:
+		evs, ok := c09ReadSSE(formatSSEEvent("message", msg))
+		vAssert("stream-parses", ok)
+		vAssert("one-event-with-the-whole-message", vAnd(len(evs) == 1, len(evs) == 1 && evs[0] == string(msg)))
+	default:
+		srv := NewStdioServer("srv", "1.0")
+		tr := newStdioTransport(srv.internal)
+		w := &verifWriter{}
+		err := tr.writeResponse(json.RawMessage(msg), w)
+		vAssert("write-ok", err == nil)
+		msgs, ok := c09Lines(string(w.data))
+		vAssert("every-line-is-one-message", vAnd(ok, len(msgs) == 1))
+		if ok && len(msgs) == 1 {
+			o, _ := verifObj(msgs[0])
+			pv, _ := o["p"].(string)
+			vAssert("one-line-with-the-whole-message", len(pv) == n-len(`{"jsonrpc":"2.0","method":"n/big","p":""}`))
+		}
+	}
 	vReach("end")
 }
